@@ -21,6 +21,8 @@ pub struct Cfg {
     pub pre: bool,
     pub verify: bool,
     pub scan: bool,
+    /// Config::fail_on_integrity_errors (the gate of Cas::open; open_with_recover, which the harness uses, must not depend on it)
+    pub strict: bool,
 }
 
 impl Cfg {
@@ -32,6 +34,7 @@ impl Cfg {
             pre: v["pre"].as_bool().unwrap_or(false),
             verify: v["verify"].as_bool().unwrap_or(false),
             scan: v["scan"].as_bool().unwrap_or(true),
+            strict: v["strict"].as_bool().unwrap_or(false),
         }
     }
     pub fn to_json(&self) -> Value {
@@ -41,7 +44,7 @@ impl Cfg {
             _ => vec![],
         };
         json!({"kt": self.kt, "n": if self.n > i32::MAX as u64 { -1 } else { self.n as i64 }, "sync": self.sync,
-               "pre": self.pre, "verify": self.verify, "scan": self.scan, "bigk": bigk})
+               "pre": self.pre, "verify": self.verify, "scan": self.scan, "strict": self.strict, "bigk": bigk})
     }
     pub fn config(&self) -> Config {
         Config {
@@ -50,7 +53,7 @@ impl Cfg {
             pre_create_cas_dirs: self.pre,
             scan_orphans_on_startup: self.scan,
             verify_blob_integrity: self.verify,
-            fail_on_integrity_errors: false,
+            fail_on_integrity_errors: self.strict,
         }
     }
 }
